@@ -12,6 +12,10 @@
   committed content of the new root.  Presence of an empty asset-id / profile
   string is not distinguished from absence (the getters return "" for both).
 
+  What a read cannot see — the `dirty` (pending write) sets of the four StorageCaches, `ChangeLog.OldClean`,
+  `StorageCache.RevertState` and what `Finalise` publishes — is the lockstep layer `LemoModel.JournalDirty`
+  (its erasure is this model: `LemoProofs.C07Dirty.runD_st`).
+
   `restoreCounter` selects between the code before commit 5712ccd
   (`false`: the per-account version counter is not given back on undo) and the
   current code (`true`).  `equityNilOk` likewise for commit 1ec51f5
